@@ -184,6 +184,34 @@ theorem create_ok (x : Rat) (hx : 0 ≤ x) (y : Nat → Rat) (hy : ∀ n, 0 ≤ 
   obtain ⟨k, hk⟩ := hk
   exact ⟨_, by rw [create_unfold, bind_ok, hn, bind_ok, bind_ok, hk, bind_ok, pure_ok]⟩
 
+/-- the constructor's exceptions are decided by the model from its arguments: a rate ≤ 0 is refused by
+    `math.log` (ValueError) before anything else … -/
+theorem ctor_rate_nonpos (n : Int) (rate lg c l2 : Rat) (t fl : Nat) (h : rate ≤ 0) :
+    createPy n rate lg c l2 t fl = .error .valueerr := by
+  unfold createPy
+  rw [if_pos h]
+  rfl
+
+/-- … and `nElements = 0` (with a valid rate) divides by zero when the hash-function count is computed -/
+theorem ctor_zero_elements (rate lg c l2 : Rat) (t fl : Nat) (h : 0 < rate) :
+    createPy 0 rate lg c l2 t fl = .error zeroDivisionError := by
+  unfold createPy
+  have hr : ¬ rate ≤ 0 := by grind
+  rw [if_neg hr]
+  have hx : -c * ((0 : Int) : Rat) * lg = 0 := by grind
+  rw [hx]
+  obtain ⟨f, hf⟩ := create_ok 0 (by grind) (fun _ => 0) (fun _ => by grind) 0 0
+  rw [create_unfold, bind_ok] at hf
+  obtain ⟨n, hn, _⟩ := bind_eq_ok hf
+  rw [create_unfold, bind_ok, hn, bind_ok]
+  rfl
+
+/-- … and whenever it does build a filter, the caps hold -/
+theorem ctor_caps (n : Int) (rate lg c l2 : Rat) (t fl : Nat) (f : Filter)
+    (h : createPy n rate lg c l2 t fl = .ok f) :
+    f.vData.length ≤ 36000 ∧ f.nHashFuncs ≤ 50 ∧ isWithinSizeConstraints f = true :=
+  caps _ _ t fl f h
+
 example : create (.error .valueerr) (fun _ => .ok 1) 0 0 = .error .valueerr := rfl
 example : create (.ok 100) (fun _ => .error zeroDivisionError) 0 0 = .error zeroDivisionError := by
   obtain ⟨f, hf⟩ := create_ok 100 (by grind) (fun _ => 0) (fun _ => by grind) 0 0
